@@ -243,12 +243,21 @@ func be(n uint64, width int) []byte {
 }
 
 func nest(depth int, inner []byte) []byte {
-	// lists nested depth deep around inner, with correct length headers
-	b := inner
+	// lists nested depth deep around inner, with correct length headers (built from the inside out
+	// without copying the body once per level)
+	heads := make([][]byte, depth)
+	n := len(inner)
+	total := n
 	for i := 0; i < depth; i++ {
-		b = append(listHeader(len(b)), b...)
+		heads[i] = listHeader(n)
+		n += len(heads[i])
+		total += len(heads[i])
 	}
-	return b
+	b := make([]byte, 0, total)
+	for i := depth - 1; i >= 0; i-- {
+		b = append(b, heads[i]...)
+	}
+	return append(b, inner...)
 }
 
 func listHeader(n int) []byte {
@@ -273,7 +282,18 @@ func strHeader(n int) []byte {
 	return append([]byte{0xb7 + byte(len(l))}, l...)
 }
 
+var rlpPayloadCache = map[bool][]namedPayload{}
+
 func rlpPayloads(thorough bool) []namedPayload {
+	if l, ok := rlpPayloadCache[thorough]; ok {
+		return l
+	}
+	l := buildRlpPayloads(thorough)
+	rlpPayloadCache[thorough] = l
+	return l
+}
+
+func buildRlpPayloads(thorough bool) []namedPayload {
 	var l []namedPayload
 	add := func(n string, b []byte) { l = append(l, namedPayload{n, b}) }
 	add("empty", nil)
@@ -341,8 +361,8 @@ func rlpPayloads(thorough bool) []namedPayload {
 
 func msgFamilies(w *world) []*Family {
 	var fams []*Family
-	add := func(name string, cost int, gen func(thorough bool, emit func(Case))) {
-		fams = append(fams, &Family{Name: "msg/" + name, Cost: cost, Gen: func(_ *world, th bool, emit func(Case)) { gen(th, emit) }})
+	add := func(name string, cost int, gen func(thorough bool, emit func(func() Case))) {
+		fams = append(fams, &Family{Name: "msg/" + name, Cost: cost, Gen: func(_ *world, th bool, emit func(func() Case)) { gen(th, emit) }})
 	}
 	one := func(name string, code uint32, payload []byte, opt playOpt) Case {
 		return Case{Name: name, Run: func(m *meter) string { return playMsgs(m, []wire{{code, payload}}, opt) }}
@@ -350,9 +370,9 @@ func msgFamilies(w *world) []*Family {
 	// every code 0..0x1f with the generic adversarial payloads
 	for code := uint32(0); code <= 0x1f; code++ {
 		code := code
-		add(fmt.Sprintf("%02x/rlp", code), 1, func(th bool, emit func(Case)) {
+		add(fmt.Sprintf("%02x/rlp", code), 1, func(th bool, emit func(func() Case)) {
 			for _, p := range rlpPayloads(th) {
-				emit(one(fmt.Sprintf("msg/%02x/rlp/%s", code, p.name), code, p.b, playOpt{}))
+				emit(func() Case { return one(fmt.Sprintf("msg/%02x/rlp/%s", code, p.name), code, p.b, playOpt{}) })
 			}
 		})
 	}
@@ -371,29 +391,29 @@ func msgFamilies(w *world) []*Family {
 		code := code
 		ss := bycode[code]
 		opt := playOpt{}
-		add(fmt.Sprintf("%02x/sample", code), 4, func(th bool, emit func(Case)) {
+		add(fmt.Sprintf("%02x/sample", code), 4, func(th bool, emit func(func() Case)) {
 			for _, s := range ss {
-				emit(one(fmt.Sprintf("msg/%02x/sample/%s", code, s.name), code, s.payload, opt))
+				emit(func() Case { return one(fmt.Sprintf("msg/%02x/sample/%s", code, s.name), code, s.payload, opt) })
 				if code == 0x06 {
-					emit(one(fmt.Sprintf("msg/%02x/sample/%s/then-the-node-mines", code, s.name), code, s.payload, playOpt{mine: true}))
+					emit(func() Case { return one(fmt.Sprintf("msg/%02x/sample/%s/then-the-node-mines", code, s.name), code, s.payload, playOpt{mine: true}) })
 				}
 			}
 		})
-		add(fmt.Sprintf("%02x/trunc", code), 1, func(th bool, emit func(Case)) {
+		add(fmt.Sprintf("%02x/trunc", code), 1, func(th bool, emit func(func() Case)) {
 			for _, s := range ss {
 				for cut := 0; cut < len(s.payload); cut++ {
 					if !th && !s.quick && cut%7 != 0 {
 						continue
 					}
-					emit(one(fmt.Sprintf("msg/%02x/trunc/%s/cut=%04d", code, s.name, cut), code, s.payload[:cut], opt))
+					emit(func() Case { return one(fmt.Sprintf("msg/%02x/trunc/%s/cut=%04d", code, s.name, cut), code, s.payload[:cut], opt) })
 				}
 				// and with trailing bytes
 				for _, extra := range [][]byte{{0x00}, {0x80}, {0xc0}, bytes.Repeat([]byte{0xff}, 9)} {
-					emit(one(fmt.Sprintf("msg/%02x/trunc/%s/trailing=%x", code, s.name, extra), code, append(append([]byte{}, s.payload...), extra...), opt))
+					emit(func() Case { return one(fmt.Sprintf("msg/%02x/trunc/%s/trailing=%x", code, s.name, extra), code, append(append([]byte{}, s.payload...), extra...), opt) })
 				}
 			}
 		})
-		add(fmt.Sprintf("%02x/mut", code), 1, func(th bool, emit func(Case)) {
+		add(fmt.Sprintf("%02x/mut", code), 1, func(th bool, emit func(func() Case)) {
 			// single byte mutations over the 16 RLP boundary bytes at every position
 			for _, s := range ss {
 				if !th && !s.quick {
@@ -401,12 +421,12 @@ func msgFamilies(w *world) []*Family {
 				}
 				for pos := range s.payload {
 					for _, v := range boundaryVals(s.payload[pos], th) {
-						emit(one(fmt.Sprintf("msg/%02x/mut/%s/pos=%04d/val=%02x", code, s.name, pos, v), code, withByte(s.payload, pos, v), opt))
+						emit(func() Case { return one(fmt.Sprintf("msg/%02x/mut/%s/pos=%04d/val=%02x", code, s.name, pos, v), code, withByte(s.payload, pos, v), opt) })
 					}
 				}
 			}
 		})
-		add(fmt.Sprintf("%02x/mut256", code), 1, func(th bool, emit func(Case)) {
+		add(fmt.Sprintf("%02x/mut256", code), 1, func(th bool, emit func(func() Case)) {
 			if !th {
 				return
 			}
@@ -423,12 +443,12 @@ func msgFamilies(w *world) []*Family {
 						if byte(v) == s.payload[pos] || isB[byte(v)] {
 							continue
 						}
-						emit(one(fmt.Sprintf("msg/%02x/mut256/%s/pos=%04d/val=%02x", code, s.name, pos, v), code, withByte(s.payload, pos, byte(v)), opt))
+						emit(func() Case { return one(fmt.Sprintf("msg/%02x/mut256/%s/pos=%04d/val=%02x", code, s.name, pos, v), code, withByte(s.payload, pos, byte(v)), opt) })
 					}
 				}
 			}
 		})
-		add(fmt.Sprintf("%02x/mut2", code), 1, func(th bool, emit func(Case)) {
+		add(fmt.Sprintf("%02x/mut2", code), 1, func(th bool, emit func(func() Case)) {
 			// pairs of boundary bytes at adjacent positions
 			if !th {
 				return
@@ -445,7 +465,7 @@ func msgFamilies(w *world) []*Family {
 							}
 							b := withByte(s.payload, pos, v1)
 							b[pos+1] = v2
-							emit(one(fmt.Sprintf("msg/%02x/mut2/%s/pos=%04d/val=%02x%02x", code, s.name, pos, v1, v2), code, b, opt))
+							emit(func() Case { return one(fmt.Sprintf("msg/%02x/mut2/%s/pos=%04d/val=%02x%02x", code, s.name, pos, v1, v2), code, b, opt) })
 						}
 					}
 				}
